@@ -1,7 +1,7 @@
 (* Properties/C12.v — Data() recovers the values the kernel encoded. *)
 From Coq Require Import List Ascii String NArith ZArith Bool Arith.
 Import ListNotations.
-Require Import KV Trim Header Parser ParseProofs ParseBody ParseEnrich ParseSockaddr ParseExecve.
+Require Import KV Trim Header Parser ParseProofs ParseBody ParseEnrich ParseEnrichIds ParseSockaddr ParseExecve.
 Require Hex.
 
 (* unsafe strings travel as upper-case hex: decoding gives back every byte string *)
@@ -97,6 +97,12 @@ Proof. exact result_rule_res. Qed.
 Theorem C12_unset_rule : forall k m o v, kv_get (L k) m = Some (o, v) ->
   kv_get (L k) (normalize_unset k m) = Some (o, if isS v "4294967295" || isS v "-1" then L "unset" else v).
 Proof. exact unset_rule. Qed.
+(* through the whole enrichment of a record type without decoding of its own: whichever of auid / old-auid / ses the record
+   carries - alone or together, whatever else is there - is reported as "unset" when it is 4294967295 or -1, else as written *)
+Theorem C12_unset_ids_through_enrichment : forall ty m0 k o v, plain_type ty = true -> In k ["auid"; "old-auid"; "ses"]%string ->
+  kv_get (L k) m0 = Some (o, v) ->
+  exists m tags, enrich ty m0 = Some (m, tags) /\ kv_get (L k) m = Some (o, unset_of v).
+Proof. exact enrich_unset_ids. Qed.
 Theorem C12_exit_rule : forall m o v code, kv_get (L "exit") m = Some (o, v) -> atoi v = Some code ->
   kv_get (L "exit") (do_exit m) =
     Some (o, if (code <? 0)%Z then match lookup_tab (- code)%Z Errno.errno_to_name with Some n => S2 n | None => v end else v).
@@ -116,6 +122,7 @@ Print Assumptions C12_result_rule_res.
 Print Assumptions C12_placeholders_dropped.
 Print Assumptions C12_placeholder_key_absent.
 Print Assumptions C12_data_of_decoded_body.
+Print Assumptions C12_unset_ids_through_enrichment.
 Print Assumptions C12_hex_roundtrip.
 Print Assumptions C12_quoted_field_tokenised.
 Print Assumptions C12_body_tokenised.
